@@ -11,7 +11,7 @@ NO_SHRINK = True
 
 PROP = {
     "id": "C11",
-    "quick_n": 200,
+    "quick_n": 300,
     "thorough_n": 4000,
     "rule": "one program = tree spec whose quantities are lambdas, defs and string expressions, plain, "
             "named and cached in every wrapper order; a state reached by fills (dict records), "
